@@ -22,11 +22,22 @@ pub struct BatchOut {
     pub first_violation: Option<(usize, IoPlan, Violation)>,
     pub violations: usize,
     pub strata: Counters,
+    /// 1 + the largest plan index executed (a shard re-run with `--runs` set to this executes the same plans)
+    pub max_index_plus_one: usize,
 }
 
 /// Run `n` plans produced by `plan_of(i)` on `workers` threads. If `deadline` passes, no
 /// new plan is started; the number actually run is `digests.len()` (a contiguous prefix).
 pub fn run_batch<F: Fn(usize) -> IoPlan + Sync>(n: usize, workers: usize, deadline: Option<Instant>, known: &[String], plan_of: F) -> BatchOut {
+    run_batch_sharded(n, workers, deadline, known, None, plan_of)
+}
+
+/// `shard = Some((s, of))`: this process executes, sequentially (one worker), exactly the chunks
+/// `c` with `c % of == s`, in increasing order. Everything a plan can observe of earlier plans -
+/// per-thread state within its chunk, process-global state across chunks - is then a function of
+/// the shard's own index sequence, so a violation replays from that sequence alone.
+pub fn run_batch_sharded<F: Fn(usize) -> IoPlan + Sync>(n: usize, workers: usize, deadline: Option<Instant>, known: &[String], shard: Option<(usize, usize)>, plan_of: F) -> BatchOut {
+    let workers = if shard.is_some() { 1 } else { workers };
     let next = AtomicUsize::new(0);
     let stop = AtomicBool::new(false);
     struct Acc {
@@ -73,6 +84,10 @@ pub fn run_batch<F: Fn(usize) -> IoPlan + Sync>(n: usize, workers: usize, deadli
                     // on one brand-new OS thread: per-thread state a tree may keep lives at most as long
                     // as the chunk, and which plans share a thread is a function of the indices alone
                     let c = next.fetch_add(1, Ordering::Relaxed);
+                    let c = match shard {
+                        Some((sh, of)) => sh + c * of,
+                        None => c,
+                    };
                     let lo = c * CHUNK;
                     if lo >= n {
                         break;
@@ -132,12 +147,16 @@ pub fn run_batch<F: Fn(usize) -> IoPlan + Sync>(n: usize, workers: usize, deadli
     let mut a = acc.into_inner().unwrap();
     a.digests.sort();
     // with a deadline, indices may have a ragged tail; keep the contiguous prefix
-    let mut m = 0;
-    while m < a.digests.len() && a.digests[m].0 == m {
-        m += 1;
+    // (a shard runs sequentially: what it ran is already a prefix of its own chunk sequence)
+    if shard.is_none() {
+        let mut m = 0;
+        while m < a.digests.len() && a.digests[m].0 == m {
+            m += 1;
+        }
+        a.digests.truncate(m);
     }
-    a.digests.truncate(m);
     BatchOut {
+        max_index_plus_one: a.digests.last().map(|x| x.0 + 1).unwrap_or(0),
         digests: a.digests.into_iter().map(|x| x.1).collect(),
         counters: a.counters,
         steps: a.steps,
@@ -375,30 +394,42 @@ pub fn replay_file(path: &str) -> Result<(Option<Violation>, String, Vec<String>
         let seed = j.get("seed").and_then(|x| x.as_i64()).unwrap_or(1) as u64;
         let sweep_plans = if source == "sweep" { crate::io_gen::sweep(pre.get("values_per_type").and_then(|x| x.as_usize()).unwrap_or(3)).0 } else { vec![] };
         let get = |i: usize| if source == "sweep" { sweep_plans[i].clone() } else { seeded_plan(seed, i) };
-        let mut last: Option<RunResult> = None;
+        let shard = pre.get("shard").and_then(|x| x.as_usize()).unwrap_or(0);
+        let of = pre.get("of").and_then(|x| x.as_usize()).unwrap_or(1).max(1);
+        if pre.get("after_sweep").and_then(|x| x.as_bool()).unwrap_or(false) {
+            // the search batch ran in the same process after the shard's part of the sweep
+            let sp = crate::io_gen::sweep(pre.get("values_per_type").and_then(|x| x.as_usize()).unwrap_or(3)).0;
+            let mut c = shard;
+            while c * CHUNK < sp.len() {
+                let _ = execute_chunk(&sp[c * CHUNK..((c + 1) * CHUNK).min(sp.len())]);
+                c += of;
+            }
+        }
+        // the first violation of the recorded invariant anywhere in the replayed range counts: with
+        // process-global state the batch (16 workers) and this sequential re-execution need not fail at
+        // the same plan
+        let inv = want.split('|').next().unwrap_or("").to_string();
         let mut lo = (from / CHUNK) * CHUNK;
         while lo <= upto {
+            if (lo / CHUNK) % of != shard {
+                lo += CHUNK;
+                continue;
+            }
             let hi = (lo + CHUNK).min(upto + 1);
-            let plans: Vec<IoPlan> = (lo.max(from)..hi).map(|i| get(i)).collect();
-            let mut rs = execute_chunk(&plans);
-            if hi == upto + 1 {
-                last = rs.pop();
+            let first = lo.max(from);
+            let plans: Vec<IoPlan> = (first..hi).map(|i| get(i)).collect();
+            let rs = execute_chunk(&plans);
+            for (k, r) in rs.into_iter().enumerate() {
+                if let Some(v) = r.violation {
+                    if v.class().split('|').next() == Some(inv.as_str()) || inv.is_empty() {
+                        let cls = v.class();
+                        return Ok((Some(v), cls, vec![format!("(replayed plans {}..={} of the {} batch as the batch ran them; plan {} violates)", from, upto, source, first + k)]));
+                    }
+                }
             }
             lo += CHUNK;
         }
-        if let Some(r) = last {
-            // accept the same invariant on any record kind: the batch state, not the minimised plan, is replayed
-            let inv = want.split('|').next().unwrap_or("").to_string();
-            let v = r.violation.map(|mut v| {
-                if v.class().split('|').next() == Some(inv.as_str()) {
-                    v.invariant = v.invariant.clone();
-                }
-                v
-            });
-            let same_inv = v.as_ref().map(|v| v.class().split('|').next().map(|s| s.to_string()) == Some(inv.clone())).unwrap_or(false);
-            let want2 = if same_inv { v.as_ref().map(|v| v.class()).unwrap_or_default() } else { want };
-            return Ok((v, want2, vec![format!("(replayed plans {}..={} of the {} batch as the batch ran them)", from, upto, source)]));
-        }
+        return Ok((None, want, vec![format!("(replayed plans {}..={} of the {} batch: no violation)", from, upto, source)]));
     }
     let r = execute_isolated(&plan, true);
     Ok((r.violation, want, r.log))
